@@ -111,10 +111,10 @@ example : ∀ v ∈ [List.replicate 16 (0xAB : UInt8)], v.length = 16 := by simp
 
 /-! ## 3. the write side inserts the hash the read side looks up -/
 
-/-- Every kind except BOOLEAN: for a page holding `values` (all of kind `kind`; int96 = 12 bytes,
-    fixed-length = `size > 0` bytes each), the hash `Value.hash` computes for a written value is among
-    the hashes `splitBlockEncoding.Encode*` inserts for that page. -/
-theorem hash_sides_agree (kind : Kind) (hk : kind ≠ .boolean) (values : List Value)
+/-- Every kind: for a page holding `values` (all of kind `kind`; int96 = 12 bytes, fixed-length =
+    `size > 0` bytes each), the hash `Value.hash` computes for a written value is among the hashes
+    `splitBlockEncoding.Encode*` inserts for that page. -/
+theorem hash_sides_agree (kind : Kind) (values : List Value)
     (hv : ∀ v ∈ values, v.kindOk kind = true) (v : Value) (hm : v ∈ values) :
     hashRead v ∈ hashWrite (pageData kind values) := by
   have hvk := hv v hm
@@ -124,7 +124,11 @@ theorem hash_sides_agree (kind : Kind) (hk : kind ≠ .boolean) (values : List V
     rcases List.mem_map.mp hb with ⟨w, hw, rfl⟩
     exact h w hw (hv w hw)
   cases kind with
-  | boolean => exact absurd rfl hk
+  | boolean =>
+    cases v <;> simp [Value.kindOk] at hvk
+    rename_i b
+    simp only [pageData, hashWrite]
+    exact encodeBoolean_covers _ b (List.mem_map.mpr ⟨.boolean b, hm, rfl⟩)
   | int32 =>
     cases v <;> simp [Value.kindOk] at hvk
     simp only [pageData, hashWrite, multiSum64Uint32, multiSum64, List.take_length]
@@ -175,83 +179,123 @@ theorem hash_sides_agree (kind : Kind) (hk : kind ≠ .boolean) (values : List V
 example : ∀ v ∈ [Value.flba (List.replicate 16 1), Value.flba (List.replicate 16 2)],
     v.kindOk (.flba 16) = true := by decide
 
-/-- BOOLEAN, the code as it stands: the property is FALSE (F3). Two `true` values are written; the
-    write side hashes the packed byte `0x03`, the read side hashes `0x01`. -/
-theorem hash_sides_disagree_boolean :
+example : ∀ v ∈ [Value.boolean true, Value.boolean true, Value.boolean false], v.kindOk .boolean = true := by decide
+
+/-- BOOLEAN before fix 3b0d378 (finding F3): the property was FALSE. Two `true` values are written;
+    the write side hashed the packed byte `0x03`, the read side hashes `0x01`. -/
+theorem hash_sides_disagree_boolean_before_fix :
     ∃ (values : List Value) (v : Value), (∀ w ∈ values, w.kindOk .boolean = true) ∧ v ∈ values ∧
-      hashRead v ∉ hashWrite (pageData .boolean values) :=
+      hashRead v ∉ hashWriteBeforeFix (pageData .boolean values) :=
   ⟨[.boolean true, .boolean true], .boolean true, by decide, by decide, by decide⟩
 
-/-- … and the stored one-block filter then answers "absent" for the written value. -/
-theorem boolean_false_negative_on_mirror :
-    checkBytes (filterBytes (build 1 ((hashWrite (pageData .boolean [.boolean true, .boolean true])).map UInt64.toBitVec)))
+/-- … and the stored one-block filter then answered "absent" for the written value. -/
+theorem boolean_false_negative_before_fix :
+    checkBytes (filterBytes (build 1 ((hashWriteBeforeFix (pageData .boolean [.boolean true, .boolean true])).map UInt64.toBitVec)))
       (hashRead (.boolean true)).toBitVec = false := by
   decide
 
-/-- BOOLEAN with the repaired write side (unpack the bits, hash one 0/1 byte per value): every written
-    boolean's read-side hash is inserted. -/
-theorem hash_sides_agree_boolean_fixed (bs : List Bool) (b : Bool) (hm : b ∈ bs) :
-    hashRead (.boolean b) ∈ hashWriteBoolFixed (packBits bs) := by
-  have hp : b ∈ unpackAll (packBits bs) := by
-    have := unpack_pack bs
-    rw [← this] at hm
-    exact List.mem_of_mem_take hm
-  exact List.mem_map_of_mem hp
+/-- The staging buffers (128 hashes per `InsertBulk`) change nothing: the loop-level mirror inserts
+    exactly the hashes of the value-level one. -/
+theorem staging_is_transparent (pd : PageData) : hashWriteStaged pd = hashWrite pd := hashWriteStaged_eq pd
 
-example : hashRead (.boolean true) ∈ hashWriteBoolFixed (packBits [true, true]) :=
-  hash_sides_agree_boolean_fixed _ _ (by simp)
-
-/-- ALL kinds, write side with the boolean case repaired: the full-strength statement that holds for
-    the library once `EncodeBoolean` unpacks the bits. -/
-theorem hash_sides_agree_repaired (kind : Kind) (values : List Value)
-    (hv : ∀ v ∈ values, v.kindOk kind = true) (v : Value) (hm : v ∈ values) :
-    hashRead v ∈ hashWriteRepaired (pageData kind values) := by
-  by_cases hk : kind = .boolean
-  · subst hk
-    have hvk := hv v hm
-    cases v <;> simp [Value.kindOk] at hvk
-    rename_i b
-    simp only [pageData, hashWriteRepaired]
-    apply hash_sides_agree_boolean_fixed
-    exact List.mem_map.mpr ⟨.boolean b, hm, rfl⟩
-  · have h := hash_sides_agree kind hk values hv v hm
-    cases kind <;> first | exact absurd rfl hk | exact h
-
-example : ∀ v ∈ [Value.boolean true, Value.boolean true, Value.boolean false], v.kindOk .boolean = true := by decide
+/-- Converse for every kind except BOOLEAN (where padding bits may add `false`): nothing but hashes of
+    written values is inserted. -/
+theorem hash_sides_exact (kind : Kind) (hk : kind ≠ .boolean) (values : List Value)
+    (hv : ∀ v ∈ values, v.kindOk kind = true) (h : UInt64) (hh : h ∈ hashWrite (pageData kind values)) :
+    ∃ v ∈ values, h = hashRead v := by
+  have bytesAll : ∀ (size : Nat), (∀ w ∈ values, w.kindOk kind = true → w.payloadBytes.length = size) →
+      ∀ b ∈ values.map Value.payloadBytes, b.length = size := by
+    intro size h b hb
+    rcases List.mem_map.mp hb with ⟨w, hw, rfl⟩
+    exact h w hw (hv w hw)
+  cases kind with
+  | boolean => exact absurd rfl hk
+  | int32 =>
+    simp only [pageData, hashWrite, multiSum64Uint32, multiSum64, List.take_length, List.map_map] at hh
+    rcases List.mem_map.mp hh with ⟨w, hw, rfl⟩
+    have := hv w hw
+    cases w <;> simp [Value.kindOk] at this
+    exact ⟨_, hw, rfl⟩
+  | int64 =>
+    simp only [pageData, hashWrite, multiSum64Uint64, multiSum64, List.take_length, List.map_map] at hh
+    rcases List.mem_map.mp hh with ⟨w, hw, rfl⟩
+    have := hv w hw
+    cases w <;> simp [Value.kindOk] at this
+    exact ⟨_, hw, rfl⟩
+  | float =>
+    simp only [pageData, hashWrite, multiSum64Uint32, multiSum64, List.take_length, List.map_map] at hh
+    rcases List.mem_map.mp hh with ⟨w, hw, rfl⟩
+    have := hv w hw
+    cases w <;> simp [Value.kindOk] at this
+    exact ⟨_, hw, rfl⟩
+  | double =>
+    simp only [pageData, hashWrite, multiSum64Uint64, multiSum64, List.take_length, List.map_map] at hh
+    rcases List.mem_map.mp hh with ⟨w, hw, rfl⟩
+    have := hv w hw
+    cases w <;> simp [Value.kindOk] at this
+    exact ⟨_, hw, rfl⟩
+  | int96 =>
+    have hall := bytesAll 12 (by
+      intro w _ hw; cases w <;> simp [Value.kindOk] at hw; simpa [Value.payloadBytes] using hw)
+    simp only [pageData, hashWrite, List.flatMap_def] at hh
+    rw [chunks_flatten 12 (by decide) _ hall, List.map_map] at hh
+    rcases List.mem_map.mp hh with ⟨w, hw, rfl⟩
+    have := hv w hw
+    cases w <;> simp [Value.kindOk] at this
+    exact ⟨_, hw, rfl⟩
+  | byteArray =>
+    simp only [pageData, hashWrite, List.flatMap_def] at hh
+    rw [byteArrayValues_flatten, List.map_map] at hh
+    rcases List.mem_map.mp hh with ⟨w, hw, rfl⟩
+    have := hv w hw
+    cases w <;> simp [Value.kindOk] at this
+    exact ⟨_, hw, rfl⟩
+  | flba size =>
+    have hall := bytesAll size (by
+      intro w _ hw; cases w <;> simp [Value.kindOk] at hw; simpa [Value.payloadBytes] using hw.1)
+    by_cases hvals : values = []
+    · subst hvals
+      simp only [pageData, hashWrite, List.flatMap_nil, chunks, chunksFuel, List.length_nil] at hh
+      split at hh <;> simp [multiSum64Uint128, multiSum64] at hh
+    · obtain ⟨w0, hw0⟩ := List.exists_mem_of_ne_nil values hvals
+      have hpos : 0 < size := by
+        have := hv w0 hw0
+        cases w0 <;> simp [Value.kindOk] at this
+        exact this.2
+      simp only [pageData, hashWrite, List.flatMap_def] at hh
+      split at hh
+      · rename_i h16
+        subst h16
+        rw [chunks_flatten 16 hpos _ hall] at hh
+        simp only [multiSum64Uint128, multiSum64, List.take_length, List.map_map] at hh
+        rcases List.mem_map.mp hh with ⟨w, hw, rfl⟩
+        have := hv w hw
+        cases w <;> simp [Value.kindOk] at this
+        rename_i bytes
+        exact ⟨_, hw, by simp only [Function.comp, Value.payloadBytes, hashRead]; exact sum64Uint128_eq_xxh64 bytes this⟩
+      · rw [chunks_flatten size hpos _ hall, List.map_map] at hh
+        rcases List.mem_map.mp hh with ⟨w, hw, rfl⟩
+        have := hv w hw
+        cases w <;> simp [Value.kindOk] at this
+        exact ⟨_, hw, rfl⟩
 
 /-! ## 4. end to end on the model: a written value is found in the stored filter -/
 
-/-- A column chunk of kind ≠ BOOLEAN whose filter (any `n ≥ 1` blocks) was filled page by page through
-    `writePageToFilter`: looking up any value of any of the pages in the stored bytes answers true. -/
-theorem written_value_is_found (kind : Kind) (hk : kind ≠ .boolean) (n : Nat) (hn : 1 ≤ n)
+/-- A column chunk whose filter (any `n ≥ 1` blocks) was filled page by page through
+    `writePageToFilter` (loop-level write side): looking up any value of any of the pages in the
+    stored bytes answers true. -/
+theorem written_value_is_found (kind : Kind) (n : Nat) (hn : 1 ≤ n)
     (pages : List (List Value)) (hv : ∀ p ∈ pages, ∀ v ∈ p, v.kindOk kind = true)
     (p : List Value) (hp : p ∈ pages) (v : Value) (hm : v ∈ p) :
-    checkBytes (filterBytes (build n ((pages.flatMap (fun p => hashWrite (pageData kind p))).map UInt64.toBitVec)))
+    checkBytes (filterBytes (build n ((pages.flatMap (fun p => hashWriteStaged (pageData kind p))).map UInt64.toBitVec)))
       (hashRead v).toBitVec = true := by
   apply no_false_negative_bytes n hn
   apply List.mem_map_of_mem
-  exact List.mem_flatMap.mpr ⟨p, hp, hash_sides_agree kind hk p (hv p hp) v hm⟩
+  refine List.mem_flatMap.mpr ⟨p, hp, ?_⟩
+  rw [hashWriteStaged_eq]
+  exact hash_sides_agree kind p (hv p hp) v hm
 
 example : ∀ p ∈ [[Value.int32 7, Value.int32 9], [Value.int32 0xFFFFFFFF]], ∀ v ∈ p, v.kindOk .int32 = true := by
   decide
-
-/-- Same for BOOLEAN once the write side is repaired. -/
-theorem written_boolean_is_found_fixed (n : Nat) (hn : 1 ≤ n) (pages : List (List Bool))
-    (p : List Bool) (hp : p ∈ pages) (b : Bool) (hm : b ∈ p) :
-    checkBytes (filterBytes (build n ((pages.flatMap (fun p => hashWriteBoolFixed (packBits p))).map UInt64.toBitVec)))
-      (hashRead (.boolean b)).toBitVec = true := by
-  apply no_false_negative_bytes n hn
-  apply List.mem_map_of_mem
-  exact List.mem_flatMap.mpr ⟨p, hp, hash_sides_agree_boolean_fixed p b hm⟩
-
-/-- Every kind, repaired write side: a written value is found in the stored filter bytes. -/
-theorem written_value_is_found_repaired (kind : Kind) (n : Nat) (hn : 1 ≤ n)
-    (pages : List (List Value)) (hv : ∀ p ∈ pages, ∀ v ∈ p, v.kindOk kind = true)
-    (p : List Value) (hp : p ∈ pages) (v : Value) (hm : v ∈ p) :
-    checkBytes (filterBytes (build n ((pages.flatMap (fun p => hashWriteRepaired (pageData kind p))).map UInt64.toBitVec)))
-      (hashRead v).toBitVec = true := by
-  apply no_false_negative_bytes n hn
-  apply List.mem_map_of_mem
-  exact List.mem_flatMap.mpr ⟨p, hp, hash_sides_agree_repaired kind p (hv p hp) v hm⟩
 
 end PqModel.Props.C07
